@@ -286,6 +286,21 @@ Theorem C12_source_literals_frozen :
 Proof. repeat split; reflexivity. Qed.
 Print Assumptions C12_source_literals_frozen.
 
+(* ---- 12. the consumer: the GM TLS suites use this GCM ------------------------------------------------------------- *)
+(* static part (Gen/TLSSuites.v, read from gmtls/gm_support.go): every row of gmCipherSuites whose name says SM4_GCM
+   names the AEAD constructor aeadSM4GCM with a 16-byte key and a 4-byte implicit nonce, no other row carries an AEAD,
+   and there is such a row.  That aeadSM4GCM / the suites compute GCM-AE with IV = implicit || explicit nonce (the
+   values of C12_gcm_is_standard_sm4) is tied by the consumer leg of the differential run only (T cases). *)
+Theorem C12_tls_suites_use_sm4_gcm : forall name aead row, In (name, (aead, row)) gm_suite_rows ->
+  (name_says_sm4_gcm name = true -> aead = aeadSM4GCM_name (* "aeadSM4GCM" *) /\ nth 1 row 0%N = 16%N /\ nth 3 row 0%N = 4%N) /\
+  (name_says_sm4_gcm name = false -> aead = nil_name (* "nil" *)).
+Proof. exact gm_gcm_suites_use_sm4gcm. Qed.
+Print Assumptions C12_tls_suites_use_sm4_gcm.
+
+Example C12_example_tls_suites :
+  existsb (fun r => name_says_sm4_gcm (fst r)) gm_suite_rows = true /\ length gm_suite_rows = length Gen.TLSSuites.gen_gmCipherSuites.
+Proof. vm_compute. split; reflexivity. Qed.
+
 (* ---- non-vacuity: SM4 instances, evaluated ------------------------------------------------------------------------------ *)
 Example C12_example_rfc8998 :
   Sm4GCM sm4_encrypt_block A1_key rfc8998_iv rfc8998_pt rfc8998_aad true = Ok (rfc8998_ct, rfc8998_tag) /\
